@@ -45,7 +45,9 @@ CHECKS = {
 
 CHECKS.update({
     "C07": _c("Random concurrent programs (2-4 API goroutines, 2 file system goroutines, varied consumer pace, GOMAXPROCS and buffer) run under the race detector; TLC searches a "
-              "linearization of every recorded call/return history against the sequential watch-set specification (LinTrace.tla); race reports, panics and hangs are violations. "
+              "linearization of every recorded call/return history against the sequential watch-set specification (LinTrace.tla); race reports, panics and hangs are violations. A second batch of programs stays inside the universe of the code-shaped scheduling model (InotifySched.tla: one watched file, chmod / rename-away / delete, "
+              "polling consumer); their logs of calls, returns, file system operations and receives are validated against that model with every internal step (reader, mutex, critical sections, kernel queue) "
+              "silent - TLC searches for an explaining schedule (SchedTrace.tla). "
               "Reader-lag interleavings that a sequential driver can force are replayed as scenarios and judged by the sequential result specification.",
               "Trusted: TLC, the Go race detector as observation channel for data races. Schedules are those the Go scheduler produced; the model of the design is exhaustive only for small constants.",
               "DESIGN.md 6 C07", technique="TLA+ linearizability trace spec: TLC searches linearization points of recorded concurrent histories; plus trace validation of forced interleavings", engine="lin-trace"),
